@@ -203,10 +203,15 @@ def observe_frame(version, routes, raw, async_validation=False, settle=3, send_o
     M.ASYNC_VALIDATION = async_validation
 
     async def go():
+        # an older endpoint of the same class on another connection: nothing of the frame may reach it
+        decoy_rec = Recorder()
+        decoy = cls("decoy", Conn(decoy_rec))
+        decoy._ov_rec = decoy_rec
         cp = cls("cp", conn)
         cp._ov_rec = rec
         import logging
         cp.logger = logging.getLogger("ov-silent")
+        decoy.logger = cp.logger
         try:
             await cp.route_message(raw)
         except BaseException as e:  # noqa: BLE001 - the escape is the observation
@@ -218,6 +223,8 @@ def observe_frame(version, routes, raw, async_validation=False, settle=3, send_o
             q.append(cp._response_queue.get_nowait())
         for m in q:
             rec.log("enqueue", m)
+        if decoy_rec.seq:
+            rec.foreign = list(decoy_rec.seq)
         return cp
 
     try:
